@@ -129,6 +129,19 @@ def _search_one(variant, families, deep=0):
                         gi = lambda k: int((_re.search(r'"%s":(\d+)' % k, l) or [None, '0'])[1])
                         out['findings'].append(dict(stage=g('stage'), gen=g('gen'), family=g('family'), oracle=g('oracle'), entry=g('entry'), cfg=gi('cfg'), cap=gi('cap'),
                                                     input_hex=g('input_hex'), input=g('input'), real='(unparseable finding line) ' + l[:300], expected='', backend=variant))
+            if fam == 'guard' and p.returncode < 0 or (fam == 'guard' and p.returncode in (139, 138, 135)):
+                # death by signal while parsing at the end of a mapping whose next page is unmapped: the last announced input
+                tries = [l for l in p.stdout.split('\n') if l.startswith('GUARD-TRY ')]
+                if tries:
+                    _, kind, cfgb, hx = (tries[-1].split(' ') + [''])[:4]
+                    famn = {'0': 'request', '1': 'response', '2': 'headers', '3': 'chunk'}.get(kind, 'request')
+                    data = bytes.fromhex(hx)
+                    out['findings'].append(dict(stage='any', gen='panic', family=famn, oracle='panic', entry=famn + ' (buffer placed at the end of a mapping, next page PROT_NONE)',
+                                                cfg=int(cfgb or 0), cap=3, input_hex=hx, input=''.join(chr(b) if 32 <= b < 127 and b != 92 else '\\x%02x' % b for b in data),
+                                                real='SIGNAL %d: the process died reading past the end of the buffer (guard page)' % (-p.returncode if p.returncode < 0 else p.returncode - 128),
+                                                expected='returns normally, reads no byte outside the buffer', backend=variant, guard=True))
+                    out['evaluations'] += len(tries)
+                continue
             for l in p.stderr.split('\n'):
                 if l.startswith('evaluations='):
                     out['evaluations'] += int(l.split()[0].split('=')[1])
@@ -201,6 +214,21 @@ def timing():
     finally:
         shutil.rmtree(d, ignore_errors=True)
     return out
+
+
+def replay_guard(family, cfg, hexs, variant='default'):
+    """re-run a guard-page finding: the input parsed in place in front of an unmapped page"""
+    d, exe, err = build(variant)
+    try:
+        if exe is None:
+            return 2, 'witness build failed:\n' + err
+        kind = {'request': '0', 'response': '1', 'headers': '2', 'chunk': '3'}.get(family, '0')
+        p = subprocess.run([exe, 'guardreplay', kind, str(cfg), hexs], capture_output=True, text=True, errors="replace", timeout=120)
+        if p.returncode < 0 or p.returncode >= 128:
+            return 1, 'the process died by signal %d while parsing this input in front of an unmapped page' % (-p.returncode if p.returncode < 0 else p.returncode - 128)
+        return (0 if p.returncode == 0 else 1), (p.stdout + p.stderr)[-1500:]
+    finally:
+        shutil.rmtree(d, ignore_errors=True)
 
 
 def replay(family, cfg, cap, hexs, variant='default', history=None):
